@@ -296,6 +296,25 @@ def run_property(ctx, cfg, escalate=1):
         raise RuntimeError(f"degenerate generator: {len(ctx.nontrivial)} non-trivial of {ctx.evaluations}")
 
 
+def known_reproduces(cfg, kf):
+    """does the recorded witness of a known finding still fail on this tree?"""
+    w = kf["witness"]
+    fam = w.get("family", "m")
+    for fn in cfg["extra"]:
+        if getattr(fn, "family", None) == fam:
+            sc = copy.deepcopy(w["scenario"])
+            sc["id"] = 0
+            py = fn.observe(sc)
+            out = corr.run_driver([sc], procs=1)[0]
+            hits = set()
+            fn.first_diff(py, out["out"][fn.out_key], sc, hits)
+            return kf["signature"] in hits
+    if fam.startswith("oracle:"):
+        detail, _ = oracles.CHECKS[fam.split(":", 1)[1]](w["scenario"])
+        return bool(detail)
+    return None
+
+
 def replay(ctx, cfg, rp):
     sc = rp.get("scenario")
     if not sc:
@@ -367,3 +386,9 @@ register("C10", extra=[families.MutateFamily("pop", 1500, 60000, "outcome and ob
          rule="histories of pop (with/without default), pop_match (must_match on/off) and set_ on one evolving document; any parent part, any last step, negative indices, the root")
 register("C14", extra=[families.MutateFamily("handles", 1500, 60000, "outcome and object graph of Match.data assignment / del / pop histories")],
          rule="1-4 live Match handles (several on the same slot, on shifting list items, obtained through filters / recursion / wildcards) x sequences of m.data = v, del m.data, m.pop(default), m.data reads")
+
+register("C18", extra=[families.MutateFamily("descr", 1500, 60000, "outcome and object graph of descriptor reads / writes / deletes"),
+                       families.MutateFamily("listview", 500, 20000, "writes through the list view of a list-typed attribute reach the original document")],
+         rule="histories over Document subclasses built from random declarations: attr with/without expression, getters get/find/get_match, setters set_/set_match, converters (identity, numeric negation, boxing), typed chains (attr_typed, element k of attr_iter_typed) whose inner attributes are read / written / deleted, iterator-typed assignment, deprecated pprop/mprop; compared: outcome, returned value identity, whole object graph")
+register("C19", extra=[families.MutateFamily("listview", 1500, 60000, "results and object graph of list-view operation histories")],
+         rule="histories of len / [i] / [i]= / del [i] / in / append / pop(i) / iteration / live iterators interleaved with mutations / keep_all / remove_all through the view of a list-typed attribute (identity, negating and boxing converters; empty lists; negative and out-of-range indices; predicates keeping none / some / all); compared: results and the document's own list object in the whole object graph")
